@@ -194,8 +194,24 @@ class Gen:
             body.append(self.simple_stmt(0))
         if ret != 'void':
             if r.random() < 0.3:
-                body.append(('if', self.cond(0), ('return', self.expr8(1)), None))
-            body.append(('return', self.expr8(1)))
+                # two constant results: an early return and a different last one
+                k1, k2 = r.sample([1, 2, 3, 5, 9, 200], 2)
+                body.append(('if', self.cond(0), ('return', ('num', k1)), None))
+                body.append(('return', ('num', k2)))
+                if not hasattr(self, 'const_ret'):
+                    self.const_ret = {}
+                self.const_ret[name] = (k1, k2, np)
+            else:
+                if r.random() < 0.3:
+                    body.append(('if', self.cond(0), ('return', self.expr8(1)), None))
+                body.append(('return', self.expr8(1)))
+        elif callable_before and r.random() < 0.5:
+            # a procedure calling an earlier function (nested inlining when both are inline)
+            f = r.choice(callable_before)
+            if f[1] == 'void':
+                body.append(('expr', ('call', f[0], [self.atom8() for _ in range(f[2])])))
+            else:
+                body.append(('expr', ('asg', '=', ('var', r.choice(saved[0])), ('call', f[0], [self.atom8() for _ in range(f[2])]))))
         self.uchars, self.free_counters = saved
         self._fn_callable = None
         self.p.funcs.append(dict(name=name, ret=ret, params=params, body=body,
@@ -407,7 +423,25 @@ class Gen:
         reg = r.choice(['X', 'Y'])
         if self.in_loop and reg not in self.free_counters:
             reg = None
-        k = r.randrange(9)
+        k = r.randrange(12)
+        if k == 9 and getattr(self, 'const_ret', None) and not getattr(self, '_fn_callable', None):
+            # the result of a two-result function compared with one of its results
+            name = r.choice(list(self.const_ret))
+            k1, k2, np_ = self.const_ret[name]
+            call = ('call', name, [self.atom8() for _ in range(np_)])
+            return [('if', ('bin', r.choice(['==', '!=']), call, N(r.choice([k1, k2, k2]))), ('block', [asg(u(), N(6))]), None)]
+        if k == 10 and reg and (self.arrays or self.tables):
+            # a register reloaded from a table indexed by itself, twice (linked-list walk)
+            a = r.choice(self.arrays + self.tables)
+            cell = ('idx', a, V(reg))
+            return [asg(V(reg), N(r.randrange(8))), asg(V(reg), cell), asg(r.choice([V(reg), u()]), cell)]
+        if k == 11 and self.fnames and not getattr(self, '_fn_callable', None):
+            # the same function expanded / called twice in a row
+            f = r.choice(self.fnames)
+            mk = lambda: ('call', f[0], [self.atom8() for _ in range(f[2])])
+            if f[1] == 'void':
+                return [('expr', mk()), ('expr', mk())]
+            return [asg(u(), mk()), asg(u(), mk())]
         rmw = lambda lv: ('expr', r.choice([('inc', r.choice(['++x', 'x++', '--x', 'x--']), lv),
                                              ('asg', r.choice(['<<=', '>>=']), lv, N(1)),
                                              ('asg', r.choice(['+=', '-=', '^=']), lv, N(r.randrange(1, 9)))]))
@@ -447,3 +481,43 @@ class Gen:
 
 def gen_program(rng, opts=None):
     return Gen(rng, opts).program()
+
+
+def nested_inline_program(rng, inline=True):
+    """inline functions that themselves expand inline functions, each expanded several times in its
+    caller (label renaming must stay unique per expansion); with inline=False the same program
+    with ordinary calls (the C14 twin)"""
+    kw = 'inline ' if inline else ''
+    L = ['unsigned char a;', 'unsigned char b;', 'unsigned char c;']
+    depth = rng.choice([2, 2, 3])
+    names = []
+    for d in range(depth):
+        name = 'n%d' % d
+        ret_val = rng.random() < 0.5
+        body = []
+        shape = rng.randrange(4)
+        if shape == 0:
+            body.append('if (%s) { %s = %d; }' % (rng.choice(['a', 'b', 'Y']), rng.choice(['b', 'c']), rng.randrange(9)))
+        elif shape == 1:
+            body.append('for (c = 0; c != %d; c++) { a++; }' % rng.randrange(1, 4))
+        elif shape == 2:
+            body.append('if (a == %d) { b++; } else { b--; }' % rng.randrange(3))
+        else:
+            body.append('do { b = b + 1; } while (b < %d);' % rng.randrange(2, 6))
+        if names:
+            callee, callee_val = names[-1]
+            for _ in range(rng.choice([1, 2])):
+                body.append(('%s = %s();' % (rng.choice(['a', 'b']), callee)) if callee_val else ('%s();' % callee))
+        if ret_val:
+            body.insert(0, 'if (%s) return %d;' % (rng.choice(['Y', 'a', 'b']), rng.randrange(1, 9)))
+            body.append('return %d;' % rng.randrange(1, 9))
+        L.append('%s%s %s() { %s }' % (kw, 'unsigned char' if ret_val else 'void', name, ' '.join(body)))
+        names.append((name, ret_val))
+    top, top_val = names[-1]
+    calls = []
+    for _ in range(rng.choice([2, 2, 3])):
+        calls.append(('%s = %s();' % (rng.choice(['a', 'b', 'c']), top)) if top_val else ('%s();' % top))
+        if rng.random() < 0.3:
+            calls.append('Y--;')
+    L.append('void main() { %s }' % ' '.join(calls))
+    return '\n'.join(L) + '\n'
